@@ -188,7 +188,20 @@ def radType1 (E : Engine α) (sw : Switches) (pwf : Nat → α → α) (maxPow :
         let bes := g.x.map fun r => besselAt E maxL (((2 : Nat) : α) * par.p a b * par.P a b) r
         -- intValues(l, i) = Utab[i] * besselValues(l, i); prescreen
         let iv0 := fun (l i : Nat) => utab[i]! * (bes[i]!)[l]!
-        -- prescreen: integrate between the first and the last grid point where any integrand is non-negligible
+        let expv := g.x.map fun r =>
+          Flt.exp (-(par.p a b) * (r * (r - ((2 : Nat) : α) * par.P a b) + par.P2 a b))
+        let iv := fun (l i : Nat) => iv0 l i * expv[i]!
+        -- prescreen: integrate between the first and the last grid point where any integrand is non-negligible relative
+        -- to the largest value on the grid
+        let vmax : α := Id.run do
+          let mut m : α := 0
+          for i in [0:size] do
+            let mut l := offset
+            while l ≤ maxL do
+              let v := Flt.abs (iv l i)
+              if m < v then m := v
+              l := l + 2
+          return m
         let (start, stop) : Nat × Nat := Id.run do
           let mut first : Option Nat := none
           let mut last := 0
@@ -197,7 +210,7 @@ def radType1 (E : Engine α) (sw : Switches) (pwf : Nat → α → α) (maxPow :
               let mut significant := false
               let mut l := offset
               while l ≤ maxL do
-                significant := significant || decide (E.tol ≤ Flt.abs (iv0 l i))
+                significant := significant || decide (E.tol * vmax ≤ Flt.abs (iv l i))
                 l := l + 2
               if significant then
                 if first.isNone then first := some i
@@ -205,9 +218,6 @@ def radType1 (E : Engine α) (sw : Switches) (pwf : Nat → α → α) (maxPow :
           match first with
           | some f => return (f, last)
           | none => return (0, size - 1)
-        let expv := g.x.map fun r =>
-          Flt.exp (-(par.p a b) * (r * (r - ((2 : Nat) : α) * par.P a b) + par.P2 a b))
-        let iv := fun (l i : Nat) => iv0 l i * expv[i]!
         let (temp, _) := radIntegrate E sw maxL g iv start stop offset 2
         let x : α := if Flt.abs (par.P a b) < Flt.ofRat 1 1000000000000 then 0
                      else (za * d.A.2.2 + zb * d.B.2.2) / (par.p a b * par.P a b)
